@@ -119,6 +119,14 @@ def answer (line : String) : String :=
     match bytesOfHex h with
     | some s => resStr hexOfBytes (unhexify s)
     | none => "bad-op"
+  | ["hex.encoff", _, h] =>      -- the same bytes handed over as a sub-slice that starts `k` bytes into a buffer
+    match bytesOfHex h with
+    | some bs => "ok " ++ hexOfBytes (hexify bs)
+    | none => "bad-op"
+  | ["hex.decoff", _, h] =>
+    match bytesOfHex h with
+    | some s => resStr hexOfBytes (unhexify s)
+    | none => "bad-op"
   | ["hex.dec.pinned", h] =>
     match bytesOfHex h with
     | some s => resStr hexOfBytes (unhexifyPinned s)
